@@ -1,7 +1,7 @@
 (* C12 — ParseSource is total: any input ends in a value or a located syntax diagnostic.
    Statements only; the proofs are in LexerProofs.v, ParserProofs.v, CdcnProofs.v. *)
 From Coq Require Import String.
-From Verif Require Import Base Params Value Lexer Literals Parser LexerProofs ParserProofs CdcnProofs ParseRun.
+From Verif Require Import Base Params Value Lexer Literals Parser LexerProofs ParserProofs CdcnProofs ParseRun ScannerLeak.
 Close Scope string_scope.
 Close Scope Z_scope.
 
@@ -87,6 +87,17 @@ Theorem C12_diagnostic_error_char : forall fparse crank src t,
               tline t = line_of (firstn k src) /\ tpos t = col_of (firstn k src).
 Proof. exact diagnostic_error_char. Qed.
 
+(* the scanner goroutine (D18), abstract queue model: the scanner adds N tokens to a queue of
+   capacity C, the parser takes k <= N of them and stops.  In every maximal run the scanner has
+   added all its tokens exactly when the N - k tokens nobody reads fit into the queue; the
+   repaired ParseSource reads up to EOF (k = N), so the scanner always finishes *)
+Theorem C12_scanner_finishes_iff : forall N k C, k <= N -> 1 <= C ->
+  forall p c, reach N k C (p, c) -> stuck N k C (p, c) -> (p = N <-> N - k <= C).
+Proof. exact scanner_finishes_iff. Qed.
+Theorem C12_drained_scanner_finishes : forall N C p c,
+  1 <= C -> reach N N C (p, c) -> stuck N N C (p, c) -> p = N.
+Proof. exact drained_scanner_finishes. Qed.
+
 (* non-vacuity: concrete sources and what the model computes for them *)
 Example C12_ex_value :
   parse_source (fun _ => None) (default_crank []) (zs "[3, 1, 2, 1](Set)") = PValue (VSeq KSet [VInt 64 1; VInt 64 2; VInt 64 3]).
@@ -119,3 +130,5 @@ Print Assumptions C12_never_out_of_fuel.
 Print Assumptions C12_never_reads_behind_eof.
 Print Assumptions C12_diagnostic_located.
 Print Assumptions C12_diagnostic_error_char.
+Print Assumptions C12_scanner_finishes_iff.
+Print Assumptions C12_drained_scanner_finishes.
